@@ -831,7 +831,7 @@ impl Property for C04 {
         }
 
         // (b) generated modules
-        let cases = ctx.tier.pick(150_000, 3_000_000);
+        let cases = ctx.tier.pick(400_000, 3_000_000);
         ctx.run_streams("c04-programs", cases, 400, |ctx, bytes| {
             let mut c = Choices::new(bytes);
             let m = Gen::new(&mut c, Features::default()).module();
